@@ -13,7 +13,8 @@ RULE = ("Enumerated: {application, every message type 0..255} x DADR shape {abse
         "random/mutated frames. Oracle: independent clause-6.2 reference codec, both directions, accept/reject agreement "
         "(DecodingError exactly when the reference rejects), field-by-field comparison, message parameters round trip and "
         "re-encode. Non-trivial: header with DADR or SADR or a network message; decoded string that passes version check; "
-        "message with a non-empty list/table. Distinct by octets.")
+        "message with a non-empty list/table. Distinct by octets."
+        " One reduced copy of a generated shard runs with the library's debug tracing switched on (label tracing-on).")
 ASSUMPTIONS = [
     "bpverif/ref/npci.py transcribes clause 6.2.2 / 6.4 correctly",
     "reserved control bits 0x40 and 0x10 are ignored on receipt by both library and reference",
